@@ -51,6 +51,7 @@ class Content:
         self.info = []          # per position: None or (time, bad, rehash, justsynced)
         self.info_oldest = 0
         self.record_order = []  # sequence of record tags as met (diagnostics)
+        self.varint_spans = []  # (start, end, bits) of every packed number in the decoded bytes
         self.inode_spans = []   # (start, end, disk name, inode) of every file record's inode field in the decoded bytes
 
     # ------------------------------------------------------------ views
@@ -91,6 +92,7 @@ class _R:
     def __init__(self, data):
         self.d = data
         self.p = 0
+        self.spans = []     # (start, end, bits) of every packed number read
 
     def eof(self):
         return self.p >= len(self.d)
@@ -110,6 +112,15 @@ class _R:
         return r
 
     def b(self, bits):
+        v = 0
+        s = 0
+        start = self.p
+        try:
+            return self._b(bits)
+        finally:
+            self.spans.append((start, self.p, bits))
+
+    def _b(self, bits):
         v = 0
         s = 0
         while True:
@@ -306,6 +317,7 @@ def decode(data, strict=True):
         raise ContentError("no crc")
     if len(c.info) < c.blockmax:
         c.info = c.info + [None] * (c.blockmax - len(c.info))
+    c.varint_spans = list(r.spans)
     return c
 
 
